@@ -16,7 +16,8 @@ EXTENDS Integers, Sequences
 
 CONSTANTS P_New(_), P_Call(_, _, _, _), P_Obs(_), P_Reset(_),
           Atoms,          \* set of byte sequences the peer may send
-          MaxLen,         \* bound on Len(wire) (state constraint of the MC configs)
+          MaxLen,         \* bound on Len(wire) in bytes
+          MaxAtoms,       \* bound on the number of Send steps (atoms may be several bytes long)
           Cfgs,           \* set of configurations [start, ...]
           Junk            \* the byte used for the cfg.start bytes before the text
 
@@ -27,21 +28,23 @@ VARIABLES wire,      \* bytes sent so far (junk prefix included)
           verdict,   \* verdict of the last Call, "more" initially
           cfg,       \* configuration, fixed per behaviour
           prev,      \* Len(wire) before the last Send (for the Stable check)
+          na,        \* number of atoms sent
           hist       \* ghost: the cut points (vis values) of the Calls made; not in the VIEW
 
-vars == <<wire, vis, cont, obj, verdict, cfg, prev, hist>>
-view == <<wire, vis, cont, obj, verdict, cfg, prev>>
+vars == <<wire, vis, cont, obj, verdict, cfg, prev, na, hist>>
+view == <<wire, vis, cont, obj, verdict, cfg, prev, na>>
 
 JunkSeq(k) == [j \in 1..k |-> Junk]
 
 Init == /\ cfg \in Cfgs
         /\ wire = SubSeq(JunkSeq(cfg.start), 1, cfg.start)
         /\ vis = 0 /\ cont = cfg.start /\ obj = P_New(cfg) /\ verdict = "more"
-        /\ prev = cfg.start /\ hist = <<>>
+        /\ prev = cfg.start /\ na = 0 /\ hist = <<>>
 
-Send == /\ \E a \in Atoms : /\ Len(wire) + Len(a) <= MaxLen
+Send == /\ na < MaxAtoms
+        /\ \E a \in Atoms : /\ Len(wire) + Len(a) <= MaxLen
                             /\ wire' = wire \o a
-        /\ prev' = Len(wire)
+        /\ prev' = Len(wire) /\ na' = na + 1
         /\ UNCHANGED <<vis, cont, obj, verdict, cfg, hist>>
 
 \* the caller calls again only while the parser asks for more bytes and new bytes arrived
@@ -49,12 +52,27 @@ Call == /\ vis < Len(wire) /\ verdict = "more"
         /\ LET r == P_Call(wire, cont, obj, cfg) IN
              /\ obj' = r.st /\ cont' = r.offs /\ verdict' = r.err
         /\ vis' = Len(wire) /\ hist' = Append(hist, Len(wire))
-        /\ UNCHANGED <<wire, cfg, prev>>
+        /\ UNCHANGED <<wire, cfg, prev, na>>
 
 Next == Send \/ Call
 Spec == Init /\ [][Next]_vars
 
 ----------------------------------------------------------------------------
+\* ---- explicit schedules for the replay on the real code.  hist is outside the VIEW and (when ResumeEqFresh holds with
+\* equal internal state) every distinct state is first reached by the one-call schedule, so the record of a state
+\* never makes the replayer RESUME a real object.  These operators run the model along a given cut schedule from a
+\* new object; MC modules print them as additional oracle records (EmitTwo: everything but the last atom, then all;
+\* EmitByte: a call after every byte).
+RECURSIVE SRunSched(_, _, _, _)
+SRunSched(cuts, k, offs, st) ==
+  LET r == P_Call(SubSeq(wire, 1, cuts[k]), offs, st, cfg) IN
+    IF r.err # "more" \/ k >= Len(cuts) THEN r ELSE SRunSched(cuts, k + 1, r.offs, r.st)
+SchedRes(cuts) == SRunSched(cuts, 1, cfg.start, P_New(cfg))
+HasTwo   == vis = Len(wire) /\ cfg.start < prev /\ prev < Len(wire)
+TwoCuts  == <<prev, Len(wire)>>
+HasByte  == vis = Len(wire) /\ Len(wire) - cfg.start >= 2
+ByteCuts == SubSeq([j \in 1..(Len(wire) - cfg.start) |-> cfg.start + j], 1, Len(wire) - cfg.start)
+
 \* A fresh one-shot parse of the first n bytes of the wire.
 Fresh(n) == P_Call(SubSeq(wire, 1, n), cfg.start, P_New(cfg), cfg)
 
